@@ -2,7 +2,7 @@
    input  line: the non-trivia tokens of one text as the real parser sees them: "Kind.flags,Kind.flags,..."
                 (Kind = Debug name of the TokenKind; flags: 1 = LineBreak in the trailing trivia of this token,
                 2 = LineBreak in its leading trivia, 4 = raw index adjacent to the previous token); empty line = no token.
-                A line starting with "#<number> " runs with that fuel instead of parse_fuel(n) = 24*(n+1).
+                A line starting with "#<number> " runs with that fuel instead of parse_fuel(n) = 12*(n+1).
    output line: JSON {"s": CST s-expression (token leaves = positions), "e": [[position or -1 (= raw index 0, past the end),
                 class U|E|S, expected/reason, found]..], "m": [[position, new kind]..]}
                 or {"fuel":true} (OutOfFuel) or {"panic": why} *)
